@@ -177,15 +177,30 @@ def quire_trip(ctx, prog, q, make_state, flip, rule, label, tp=None, signs=(Fals
     tp = tp or prog.inherent(q.tykey, 'to_posit')
     I = Interp(prog, max_steps=400000)
 
-    def attempt(bits, negative, cname):
-        """bits: the positive pattern y (msb first, constants / literals); the argument is y or -y"""
+    def fully_known(v):
+        """every integer of the state is a constant"""
+        if isinstance(v, AInt):
+            return v.is_const()
+        fs = getattr(v, 'fields', None)
+        if fs is not None:
+            return all(fully_known(f) for f in fs)
+        es = getattr(v, 'elems', None)
+        if es is not None:
+            return all(fully_known(f) for f in es)
+        return False
+
+    def attempt(bits, negative, cname, concrete=False):
+        """bits: the positive pattern y (msb first, constants / literals); the argument is y or -y.  A symbolic mismatch is only a candidate (explored paths
+        over-approximate when part of the state is unknown); the confirming run (concrete=True) must be determinate: constant state, no path exploration."""
         try:
             state = make_state(I, bits, negative)
-            if state is None:
+            if state is None or (concrete and not fully_known(state)):
                 return 'undecided'
             mk = lambda: [ARef(_static_frame(state), 0, [])]
             o2 = I.run(tp, mk())
             outs = [o2]
+            if o2.kind == 'undecided' and concrete:
+                return 'undecided'
             if o2.kind == 'undecided':
                 outs, complete = I.explore(tp, mk, {}, max_paths=64)
                 outs = [o for o in outs if o.kind != 'infeasible']
@@ -245,14 +260,14 @@ def quire_trip(ctx, prog, q, make_state, flip, rule, label, tp=None, signs=(Fals
                 elif rr[0] == 'panic':
                     # confirm on a concrete member of the cell before reporting
                     conc = [b if not isinstance(b, tuple) else 0 for b in bits]
-                    if attempt(conc, negative, cn) not in ('proved', 'undecided'):
+                    if attempt(conc, negative, cn, concrete=True) not in ('proved', 'undecided'):
                         ctx.finding(rule, label, 'no-return', '%s does not return on regime cell %s: %s at %s' % (label, cn, rr[1].value, rr[1].where))
                     else:
                         ctx.count('routing_cells_undecided')
                 else:
                     conc0 = [b if not isinstance(b, tuple) else 0 for b in bits]
                     conc1 = [b if not isinstance(b, tuple) else 1 for b in bits]
-                    if any(attempt(c_, negative, cn) not in ('proved', 'undecided') for c_ in (conc0, conc1)):
+                    if any(attempt(c_, negative, cn, concrete=True) not in ('proved', 'undecided') for c_ in (conc0, conc1)):
                         f = ctx.finding(rule, label, 'cells', '%s: to_posit of the resulting accumulator is not %sp on regime cell %s' % (label, '-' if flip else '', cn),
                                         {'got': str(rr[1]), 'want': str(bits), 'cells': []})
                         f.details.setdefault('cells', []).append(cn)
@@ -282,7 +297,7 @@ def quire_round_trip(ctx, prog):
         cells, proved = quire_trip(ctx, prog, q, make_state, False, 'QROUNDTRIP', q.name)
         ctx.count('roundtrip_cells_%s' % q.name, cells)
         ctx.count('roundtrip_cells_proved_%s' % q.name, proved)
-        total += proved
+        total += cells     # V4 floors count instances found, not instances decided
     return total
 
 
